@@ -358,6 +358,73 @@ def _case(repo, it, S, spec):
     return history_check(repo, it, make, "AnnotationCollection", ops, kind, "gene.collections:AnnotationCollection")
 
 
+def _construct_case(repo, it, S, spec):
+    """building a container (gene, feature collection, annotation collection) around existing children is an operation on
+    those children: when the container is given no parent, or the very parent the children already sit on, the children's
+    observable state and answers are what they were before"""
+    container, child_parent, container_parent = spec
+    out = []
+    n = 0
+
+    def parent_for(which):
+        if which == "chunk":
+            return chunk_parent(it, GENOME, 2, 48, alphabet="NT_EXTENDED")
+        if which == "chrom":
+            return chrom_parent(it, GENOME, alphabet="NT_EXTENDED")
+        return None
+
+    ms = models()
+    par = parent_for(child_parent)
+    g = build(it, S, par, ms[0])
+    fc = build(it, S, par, ms[2])
+    cpar = par if container_parent == "same" else parent_for(container_parent)
+    if container == "gene":
+        kids = list(g.fields["transcripts"])
+        make = lambda: mk_gene(it, kids, gene_id="rebuilt", parent_or_seq_chunk_parent=cpar)  # noqa: E731
+        q = "gene.gene:GeneInterval.__init__"
+    elif container == "feature collection":
+        kids = list(fc.fields["feature_intervals"])
+        make = lambda: mk_feature_collection(it, kids, feature_collection_id="rebuilt", parent_or_seq_chunk_parent=cpar)  # noqa: E731
+        q = "gene.feature:FeatureIntervalCollection.__init__"
+    else:
+        kids = [g, fc]
+        make = lambda: mk_collection(it, [g], [fc], sequence_name="chr1", parent_or_seq_chunk_parent=cpar)  # noqa: E731
+        q = "gene.collections:AnnotationCollection.__init__"
+    desc = f"{container} built with parent={container_parent} around children that sit on a {child_parent} parent"
+    seqf = repo.fn("gene.interval:AbstractFeatureInterval.get_spliced_sequence")
+    leaves = [k for k in kids if k.cls_name in ("TranscriptInterval", "FeatureInterval")] or \
+        list(g.fields["transcripts"]) + list(fc.fields["feature_intervals"])
+    before = [canon(k) for k in kids]
+    n += 1
+    try:
+        make()
+    except Raised as ex:
+        return n, [("construct", f"{desc}: raises {ex.exc_name}", q)]
+    after = [canon(k) for k in kids]
+    for i, (a, b) in enumerate(zip(before, after)):
+        if a != b:
+            out.append(("children unchanged by construction", f"{desc}: child #{i} ({kids[i].cls_name}) changed: {_first_field_change(a, b)}", q))
+            break
+    # and a cold sequence read on a leaf still answers (the parent was not stripped)
+    if child_parent != "none":
+        for lf in leaves[:2]:
+            n += 1
+            k, v = run(it, seqf, [], {}, lf)
+            if k != "ok":
+                out.append(("children usable after construction", f"{desc}: get_spliced_sequence() on a child raises {v} afterwards", q))
+                break
+    return n, out
+
+
+def rc_construction(ctx):
+    from ..par import pmap
+    specs = [(c, cp, kp) for c in ("gene", "feature collection", "annotation") for cp, kp in
+             (("chrom", "none"), ("chrom", "same"), ("chunk", "none"), ("chunk", "same"), ("none", "none"))]
+    results = pmap(_runner(ctx.repo, _construct_case), specs, min_items=2)
+    _report(ctx, "C10.RC", results, [(q, "children keep state and answers when a container is built around them") for q in (
+        "gene.gene:GeneInterval.__init__", "gene.feature:FeatureIntervalCollection.__init__", "gene.collections:AnnotationCollection.__init__")])
+
+
 def rh_history(ctx):
     from ..par import pmap
     specs = [(k,) for k in kinds()]
@@ -435,6 +502,7 @@ def r6_identity(ctx):
 
 RULES = [
     ("C10.RH", rh_history),
+    ("C10.RC", rc_construction),
     ("C10.R5", r5_cache_keys),
     ("C10.R6", r6_identity),
 ]
